@@ -18,5 +18,5 @@ func init() {
 	twin("C05", "tls-assert-switch", "proxy.go", "\tif tconn, ok := conn.(*tls.Conn); ok {\n\t\tsession.MarkSecure()\n\n\t\tcs := tconn.ConnectionState()\n\t\treq.TLS = &cs\n\t}\n", "\ttconn, isTLS := conn.(*tls.Conn)\n\tif isTLS {\n\t\tstate := tconn.ConnectionState()\n\t\tsession.MarkSecure()\n\t\treq.TLS = &state\n\t}\n")
 	mut("C05", "shaped-tls-not-marked-secure", "proxy.go", "\t\tif sconn, ok := wrconn.(*tls.Conn); ok {\n\t\t\tsession.MarkSecure()\n", "\t\tif sconn, ok := wrconn.(*tls.Conn); ok {\n", "C05.R2", "marks its session secure (shaped")
 	mut("C05", "mark-secure-vetoed", "context.go", "func (s *Session) MarkSecure() {\n\ts.mu.Lock()\n\tdefer s.mu.Unlock()\n\n\ts.secure = true", "func (s *Session) MarkSecure() {\n\ts.mu.Lock()\n\tdefer s.mu.Unlock()\n\n\tif s.hijacked {\n\t\treturn\n\t}\n\ts.secure = true", "C05.R1", "sets secure on every call")
-	mut("C05", "connect-host-follows-url", "proxy.go", "\tif p.mitm != nil {\n\t\tlog.Debugf(\"martian: attempting MITM for connection: %s / %s\", req.Host, req.URL.String())", "\tif req.URL.Host != \"\" {\n\t\treq.Host = req.URL.Host\n\t}\n\tif p.mitm != nil {\n\t\tlog.Debugf(\"martian: attempting MITM for connection: %s / %s\", req.Host, req.URL.String())", "C05.R6", "leaves the CONNECT authority")
+	mut("C05", "connect-host-follows-url", "proxy.go", "\tif p.mitm != nil {\n\t\tlog.Debugf(\"martian: attempting MITM for connection: %s / %s\", req.Host, req.URL.String())", "\tif req.URL.Host != \"\" {\n\t\treq.Host = req.URL.Host\n\t}\n\tif p.mitm != nil {\n\t\tlog.Debugf(\"martian: attempting MITM for connection: %s / %s\", req.Host, req.URL.String())", "C05.R6", "leave the request's authority")
 }
